@@ -15,7 +15,7 @@ ID = "C11"
 LEVEL = "exploration"
 # a run stuck inside C code (beyond the reach of a Python signal handler) is
 # cut off by a watchdog thread after this many seconds (core._hard_hangs)
-RUN_HARD_TIMEOUT = 60
+RUN_HARD_TIMEOUT = 120
 RULE = ("each run = 6-14 TLV items (INTEGER, length, OID, BIT STRING, OCTET "
         "STRING, SEQUENCE, context-constructed, base-128 number) encoded by "
         "the library, followed by a seeded tail, delivered intact or after "
